@@ -41,21 +41,26 @@ THEOREMS = ['C10_coherent_inv', 'C10_history', 'C10_history_pure', 'C10_per_call
             'C10_indenter_yields_agree', 'C10_lazy_init_safe', 'C10_callbacks_complete',
             'C10_lazy_init_race_old_order_refuted', 'C10_no_reset_refuted', 'C10_example', 'C10_example_threads']
 GEN_DEPS = ['InstOrder', 'IndenterHoles']
-RULE = ('histories: random sequences (0-6 operations) over {parse ok, parse failing in lexer / parser / Indenter, lex and scan '
-        'consumed partially, parse_interactive abandoned, another Lark instance created and used} on one instance of 9 '
-        'configurations (lalr/earley/cyk x basic/contextual/dynamic, with and without an Indenter post-lexer and '
-        'lexer_callbacks), every operation compared with the same operation on a fresh instance; non-trivial = distinct '
-        '(configuration, history, probe) with a non-empty history. schedules: all interleavings (quick: all with <= 2 '
-        'pre-emptions plus a seeded sample) of 2 threads lexing with one fresh shared BasicLexer, switched only at the lines '
-        'that access self._scanner / self.callback; non-trivial = distinct schedule in which both threads produce tokens')
+RULE = ('histories: random sequences (0-6 operations) over the public API {parse ok / failing in lexer, parser or Indenter, '
+        'parse(start=...), parse(on_error=...), lex and lex(dont_ignore=True) and scan consumed partially or abandoned, '
+        'parse_interactive abandoned, get_terminal, save to a BytesIO, another Lark instance created and used} on one instance '
+        'of 10 configurations (lalr/earley/cyk x basic/contextual/dynamic, one or two start symbols, with and without an '
+        'Indenter post-lexer and lexer_callbacks), followed by a probe and a plain complete lex(); every operation compared '
+        'with the same operation on a fresh instance; plus every kind of operation of every configuration between two '
+        'object-graph snapshots; non-trivial = distinct (configuration, history, probe) with a non-empty history. schedules: '
+        'all interleavings (quick: all with <= 2 pre-emptions plus a seeded sample) of 2 threads lexing with one fresh shared '
+        'BasicLexer, switched only at the lines that access self._scanner / self.callback; non-trivial = distinct schedule in '
+        'which both threads produce tokens. stress: unscheduled threads on all engines')
 TRUSTED_BASE = [
     'thread switches happen only between source lines (the tracer-based scheduler of this harness has exactly that power); '
     'in the publish-last code every scheduling line performs one GIL-atomic load/store of a shared attribute plus look-ups '
     'in a dict nobody mutates once published',
     'translator/gen_instance.py: template match of BasicLexer._build_scanner / scanner / search_scanner / match, access list of '
     'next_token, and the write-set analysis (stores on self, mutable defaults) of the functions on the call path of '
-    'parse/lex/scan/parse_interactive - a syntactic analysis, aliasing through method calls is covered only by the '
-    'object-graph snapshots of the harness',
+    'parse/lex/scan/parse_interactive/save/get_terminal - a syntactic flow-sensitive may-alias analysis (stores through local '
+    'names bound to objects reachable from self are attributed to self); state changed inside callees that are not listed '
+    '(e.g. a transformer object kept on self) is covered only by the object-graph snapshots and the configuration '
+    'fingerprint of the harness',
     'Inst/MiniLex.v models literals and backtrack-free character-class regexps only; LALR/Earley/CYK are abstract in the model '
     '(a parser is an arbitrary consumer of the token stream); their per-call freshness is tied by the snapshots and by the '
     'fresh-instance oracle',
@@ -111,22 +116,24 @@ def cb_tag(t):
 CB = {'upper': cb_upper, 'tag': cb_tag}
 
 # id -> (grammar, Lark kwargs, Indenter?, {terminal: callback name}, modelled in Coq?, kinds of operations)
+LEXOPS = ['lex', 'lexall', 'getterm', 'other']
+LALROPS = ['parse', 'pstart', 'onerr', 'inter', 'save'] + LEXOPS
 CONFIGS = {
-    'ind_basic': (G_IND, dict(parser='lalr', lexer='basic'), True, {'NAME': 'upper'}, True,
-                  ['parse', 'lex', 'inter', 'scan', 'other']),
-    'ind_ctx': (G_IND, dict(parser='lalr', lexer='contextual'), True, {'NAME': 'upper'}, False,
-                ['parse', 'lex', 'inter', 'other']),
+    'ind_basic': (G_IND, dict(parser='lalr', lexer='basic'), True, {'NAME': 'upper'}, True, LALROPS + ['scan']),
+    'ind_ctx': (G_IND, dict(parser='lalr', lexer='contextual'), True, {'NAME': 'upper'}, False, LALROPS),
     'flat_basic': (G_FLAT, dict(parser='lalr', lexer='basic'), False, {'NAME': 'upper', 'NUM': 'tag', 'WS': 'tag'}, True,
-                   ['parse', 'lex', 'inter', 'scan', 'other']),
-    'flat_basic_nocb': (G_FLAT, dict(parser='lalr', lexer='basic'), False, {}, True,
-                        ['parse', 'lex', 'inter', 'scan', 'other']),
+                   LALROPS + ['scan']),
+    'flat_basic_nocb': (G_FLAT, dict(parser='lalr', lexer='basic'), False, {}, True, LALROPS + ['scan']),
+    'flat_multi': (G_FLAT, dict(parser='lalr', lexer='basic', start=['start', 'item']), False, {'NAME': 'upper'}, True,
+                   LALROPS + ['scan']),
     'flat_ctx': (G_FLAT, dict(parser='lalr', lexer='contextual'), False, {'NAME': 'upper', 'NUM': 'tag'}, False,
-                 ['parse', 'lex', 'inter', 'scan', 'other']),
-    'flat_lexonly': (G_FLAT, dict(parser=None, lexer='basic'), False, {'NAME': 'tag'}, True, ['lex', 'other']),
+                 LALROPS + ['scan']),
+    'flat_lexonly': (G_FLAT, dict(parser=None, lexer='basic'), False, {'NAME': 'tag'}, True, LEXOPS),
     'flat_earley_basic': (G_FLAT, dict(parser='earley', lexer='basic'), False, {'NAME': 'upper'}, True,
-                          ['parse', 'lex', 'scan', 'other']),
-    'flat_earley_dyn': (G_FLAT, dict(parser='earley', lexer='dynamic'), False, {}, False, ['parse', 'other']),
-    'flat_cyk': (G_FLAT, dict(parser='cyk', lexer='basic'), False, {'NUM': 'tag'}, False, ['parse', 'lex', 'other']),
+                          ['parse', 'pstart', 'onerr', 'scan', 'save'] + LEXOPS),
+    'flat_earley_dyn': (G_FLAT, dict(parser='earley', lexer='dynamic'), False, {}, False,
+                        ['parse', 'pstart', 'lex', 'lexall', 'getterm', 'other']),
+    'flat_cyk': (G_FLAT, dict(parser='cyk', lexer='basic'), False, {'NUM': 'tag'}, False, ['parse', 'pstart'] + LEXOPS),
 }
 
 
@@ -239,7 +246,50 @@ def reference_cells(cid):
     return _REF[cid]
 
 
+def config_fingerprint(inst):
+    """the part of the instance the model treats as immutable configuration"""
+    def terms(ts):
+        return [(t.name, type(t.pattern).__name__, t.pattern.value, sorted(t.pattern.flags), t.priority) for t in ts]
+    out = {}
+    lc = getattr(inst, 'lexer_conf', None)
+    if lc is not None:
+        g = lambda a: getattr(lc, a, None)      # (a loaded instance's LexerConf has only the serialised fields)
+        out['lexer_conf'] = (terms(lc.terminals), list(lc.ignore), sorted(g('callbacks') or ()), g('g_regex_flags'),
+                             g('use_bytes'), g('skip_validation'), g('strict'), str(g('lexer_type')),
+                             type(g('postlex')).__name__, sorted(g('terminals_by_name') or ()))
+    out['terminals'] = terms(getattr(inst, 'terminals', ()))
+    out['ignore_tokens'] = list(getattr(inst, 'ignore_tokens', ()))
+    out['rules'] = [repr(r) for r in getattr(inst, 'rules', ())]
+    out['options'] = sorted((k, repr(v) if not callable(v) and not isinstance(v, dict) else str(type(v)))
+                            for k, v in inst.options.options.items() if k != 'postlex')
+    # (the states of a contextual lexer are numbered differently in different instances: a sorted set)
+    out['lexers'] = sorted({repr((label, terms(lx.terminals), sorted(lx.ignore_types), sorted(lx.newline_types),
+                                  sorted(lx.user_callbacks), lx.g_regex_flags, lx.use_bytes)) for label, lx in basic_lexers(inst)})
+    pc = getattr(getattr(inst, 'parser', None), 'parser_conf', None)
+    if pc is not None:
+        out['parser_conf'] = (list(pc.start), len(pc.rules), sorted(map(str, pc.callbacks)) if pc.callbacks else None)
+    return out
+
+
+_CONF = {}
+
+
 def coherence_violation(cid, inst):
+    if cid not in _CONF:
+        _CONF[cid] = config_fingerprint(make_instance(cid))
+    fp = config_fingerprint(inst)
+    for k, v in _CONF[cid].items():
+        if fp.get(k) != v:
+            return 'configuration changed: %s is %s, on a fresh instance %s' % (k, str(fp.get(k))[:150], str(v)[:150])
+    return _cells_violation(cid, inst)
+
+
+def _cells_violation(cid, inst):
+    from lark.utils import get_regexp_width
+    for t in inst.terminals:
+        w = t.pattern.__dict__.get('_width')
+        if w is not None and tuple(w) != tuple(get_regexp_width(t.pattern.to_regexp())):
+            return 'PatternRE._width of %s is %r, get_regexp_width gives %r' % (t.name, w, get_regexp_width(t.pattern.to_regexp()))
     """coherent_inv evaluated on the implementation: every lazy cell is unset or equals what its builder returns, and a
     published scanner comes with a published callback table"""
     ref = reference_cells(cid)
@@ -289,6 +339,32 @@ def cerr(e):
     return out
 
 
+def on_error_skip(e):
+    return True
+
+
+def on_error_stop(e):
+    return False
+
+
+ON_ERROR = {'skip': on_error_skip, 'stop': on_error_stop}
+SAVE_PROBES_FLAT = ['ab  if 12 ( x )', 'a\n ?']
+SAVE_PROBES_IND = ['a\n  b c\nd\n', 'a ( b\n c )\n']
+
+
+def canon_data(x):
+    """pickle-able data of Lark.save() in a canonical JSON-able form"""
+    if isinstance(x, dict):
+        return ['dict', sorted(([repr(k), canon_data(v)] for k, v in x.items()), key=lambda kv: kv[0])]
+    if isinstance(x, (list, tuple)):
+        return [type(x).__name__, [canon_data(v) for v in x]]
+    if isinstance(x, (set, frozenset)):
+        return ['set', sorted(repr(v) for v in x)]
+    if callable(x):
+        return ['callable', getattr(x, '__name__', '?')]
+    return repr(x)
+
+
 def run_op(inst, op):
     """op = [kind, text, k]; returns (canonical result, info) where info tells the model how the stream ended"""
     kind, text, k = op
@@ -305,10 +381,47 @@ def run_op(inst, op):
                 else:
                     info['end'] = name
                 return ['err', cerr(e)], info
+        if kind in ('pstart', 'onerr'):
+            kw = {'start': k} if kind == 'pstart' else {'on_error': ON_ERROR[k]}
+            try:
+                return ['tree', ctree(inst.parse(text, **kw))], {'end': 'done'}
+            except Exception as e:  # noqa
+                tok = getattr(e, 'token', None)
+                name = type(e).__name__
+                if name == 'UnexpectedToken':
+                    info['end'] = 'done' if getattr(tok, 'type', None) == '$END' else 'stopped'
+                else:
+                    info['end'] = name
+                return ['err', cerr(e)], info
         if kind == 'lex':
             toks = []
             it = inst.lex(text)
             return _pull(it, k, toks, info, 'tokens')
+        if kind == 'lexall':
+            toks = []
+            it = inst.lex(text, dont_ignore=True)
+            return _pull(it, k, toks, info, 'tokens')
+        if kind == 'getterm':
+            t = inst.get_terminal(text)
+            return ['terminal', str(t.name), type(t.pattern).__name__, str(t.pattern.value), sorted(t.pattern.flags),
+                    t.priority], {'end': 'done'}
+        if kind == 'save':
+            import io
+            import pickle
+            f = io.BytesIO()
+            inst.save(f, exclude_options=('postlex',) if inst.options.postlex is not None else ())
+            # the numbering of the LALR states differs from instance to instance, so the saved bytes are compared through
+            # what they load to: the configuration of the loaded instance and how it answers
+            import lark
+            f.seek(0)
+            data = pickle.loads(f.getvalue())['data']
+            loaded = lark.Lark.load(f)
+            fp = config_fingerprint(loaded)
+            probes = SAVE_PROBES_IND if inst.options.postlex is not None else SAVE_PROBES_FLAT
+            return ['saved', canon_data(data['options']), canon_data(data['parser']['lexer_conf']), canon_data(data['rules']),
+                    json.loads(json.dumps(fp, default=repr)),
+                    [run_op(loaded, ['lex', t, None])[0] for t in probes] +
+                    [run_op(loaded, ['parse', t, None])[0] for t in probes]], {'end': 'done'}
         if kind == 'inter':
             ip = inst.parse_interactive(text)
             if k == 0:
@@ -390,9 +503,17 @@ def gen_op(rng, cid):
     kind = rng.choice(kinds)
     if kind == 'other':
         return ['other', rng.choice(['a=1', 'a=1, b=22', 'a=']), None]
+    if kind == 'getterm':
+        return ['getterm', rng.choice(['NAME', 'WS', 'LPAR', 'IF', 'NOPE']), None]
+    if kind == 'save':
+        return ['save', '', None]
     text = gen_text_ind(rng) if ind else gen_text_flat(rng)
     if kind == 'parse':
         return ['parse', text, None]
+    if kind == 'pstart':
+        return ['pstart', text, rng.choice(['start', 'start', 'start', 'start', 'item', 'nope'])]
+    if kind == 'onerr':
+        return ['onerr', text, rng.choice(['skip', 'stop'])]
     if kind == 'scan':
         return ['scan', text, rng.choice([None, 0, 1, 2])]
     return [kind, text, rng.choice([None, None, 0, 1, 2, 3, 4, 6])]
@@ -495,11 +616,20 @@ def model_step(cid, op, res, info, seen):
     end = info['end']
     if end == 'UnexpectedEOF':
         end = 'done'            # Earley: raised after the whole stream was consumed
-    if kind == 'scan' and end == 'ConfigurationError':
-        end = 'stopped'         # raised by ParsingFrontend.scan before any generator exists (the model says the same)
-    if kind != 'other' and end not in END_CODE:
+    NOSTATE = ('other', 'getterm', 'save')          # the model: no cell is read or written
+    if end in ('ConfigurationError', 'NotImplementedError') and kind in ('parse', 'pstart', 'onerr', 'inter', 'scan'):
+        kind = 'other'              # raised by _verify_start / Lark.parse / ParsingFrontend.scan before anything is lexed
+    if kind == 'onerr':
+        if ind and k == 'skip':
+            raise Unmodelled('on_error resuming a parse with a post-lexer')
+        kind = 'parse'
+        if k == 'skip':
+            end = 'done' if end in ('stopped', 'UnexpectedCharacters') else end      # the handler made the parser go on
+    if kind == 'pstart':
+        kind = 'parse'
+    if kind not in NOSTATE and end not in END_CODE:
         raise Unmodelled('operation ended with %s' % end)
-    if kind == 'other':
+    if kind in NOSTATE:
         d = 'DOther'
     else:
         if kind == 'scan':
@@ -511,16 +641,16 @@ def model_step(cid, op, res, info, seen):
                 kk = 0
         else:
             kk = 0 if (k == 0) else None       # the cells do not depend on the demand once it is >= 1
-            if kind == 'lex':
+            if kind in ('lex', 'lexall'):
                 kk = k
-        d = '(%s %s %s)' % ({'parse': 'DParse', 'lex': 'DLex', 'inter': 'DInter', 'scan': 'DScan'}[kind], S(text),
-                            coq_opt(kk, N))
+        d = '(%s %s %s)' % ({'parse': 'DParse', 'lex': 'DLex', 'lexall': 'DLexAll', 'inter': 'DInter', 'scan': 'DScan'}[kind],
+                            S(text), coq_opt(kk, N))
     sc, se, keys = seen[0]
     if ind:
         indx = '(IND %s %s)' % (Z(seen[1][0]), L([Z(x) for x in reversed(seen[1][1])]))
     else:
         indx = 'None'
-    if kind == 'lex' and res[0] == 'tokens':
+    if kind in ('lex', 'lexall') and res[0] == 'tokens':
         tokx = '(TOKS %s %s)' % (L([coq_tok(t) for t in res[1]]), N(END_CODE[end]))
     else:
         tokx = 'None'
@@ -557,7 +687,7 @@ def model_case(cid, inst, steps):
 # =====================================================================================================
 # frame condition: nothing but the modelled cells changes in the instance's object graph
 # =====================================================================================================
-ALLOWED_CHANGES = {('BasicLexer', '_scanner'), ('BasicLexer', '_search_scanner'), ('BasicLexer', 'callback'),
+ALLOWED_CHANGES = {('PatternRE', '_width'), ('BasicLexer', '_scanner'), ('BasicLexer', '_search_scanner'), ('BasicLexer', 'callback'),
                    ('Ind', 'paren_level'), ('Ind', 'indent_level'), ('Ind', 'pulled')}
 ATOMS = (int, float, str, bytes, bool, type(None), complex, frozenset)
 
@@ -717,8 +847,59 @@ def run_history(cid, ops, with_frames=False):
     return inst, steps, problem
 
 
+GOOD_TEXT = {True: 'a\n  b ( c\n d ) if\ne\n', False: 'ab 12 ( x if ( 7 ) ) y'}
+
+
+def frame_coverage(ctx):
+    """every kind of operation of every configuration once with a well-formed and once with a random text, each between two
+    object-graph snapshots (the random histories are only sampled for snapshots)"""
+    rng = ctx.rng
+    for cid in sorted(CONFIGS):
+        ind, kinds = CONFIGS[cid][2], CONFIGS[cid][5]
+        ops = []
+        for kind in kinds:
+            for good in (True, False):
+                op = gen_op(rng, cid)
+                while op[0] != kind:
+                    op = gen_op(rng, cid)
+                if good and kind not in ('other', 'getterm', 'save'):
+                    op[1] = GOOD_TEXT[ind]
+                    if kind == 'pstart':
+                        op[2] = 'start'
+                    elif kind not in ('onerr',):
+                        op[2] = None
+                ops.append(op)
+        rng.shuffle(ops)
+        for lo in range(0, len(ops), 6):
+            part = ops[lo:lo + 6]
+            inst, steps, problem = run_history(cid, part, True)
+            ctx.count('frame-coverage', key=(cid, json.dumps(part)), nontrivial=True, config=cid)
+            if problem:
+                report_history_problem(ctx, cid, part, problem)
+
+
+def report_history_problem(ctx, cid, allops, problem):
+    stage, i, msg, got, exp = problem
+    w = {'kind': 'history', 'config': cid, 'operations': allops[:i + 1], 'result_after_history': got,
+         'result_on_fresh_instance': exp, 'what': stage}
+    if stage == 'oracle':
+        ctx.violation('history-oracle', w, True, '%s: operation %d %r: %s' % (cid, i, allops[i][:2], msg))
+        return
+    # the invariant / frame condition is broken: look for a call whose result shows it
+    found = search_failing_probe(ctx, cid, allops[:i + 1])
+    if found:
+        ctx.violation('history-%s+oracle' % stage, found, True, '%s; and a following call answers differently '
+                      'from a fresh instance' % msg)
+    else:
+        ctx.nsoft = getattr(ctx, 'nsoft', 0) + 1
+        if ctx.nsoft <= 3:
+            ctx.violation('correspondence:%s' % stage, dict(w, no_longer_checks='instance state model: ' + msg), False,
+                          '%s: after operation %d %r: %s' % (cid, i, allops[i][:2], msg))
+
+
 def history_stream(ctx):
     rng = ctx.rng
+    frame_coverage(ctx)
     n = ctx.scale(400, 3000) * (3 if ctx.widen else 1)
     cids = sorted(CONFIGS)
     cases, meta = [], []
@@ -726,20 +907,25 @@ def history_stream(ctx):
     defs = lconf_defs()
     for hi in range(n):
         cid = cids[hi % len(cids)] if hi < 2 * len(cids) else rng.choice(cids + ['ind_basic', 'ind_basic', 'ind_ctx'])
+        NOTEXT = ('other', 'getterm', 'save')
         ops = []
         for _ in range(rng.randint(0, 6)):
             op = gen_op(rng, cid)
-            prev = [o for o in ops if o[0] != 'other']
-            if prev and op[0] != 'other' and rng.random() < 0.25:
-                op[1] = rng.choice(prev)[1]          # the same text again (caches keyed by the input show up here)
+            texts = [o[1] for o in ops if o[0] not in NOTEXT]
+            if texts and op[0] not in NOTEXT and rng.random() < 0.25:
+                op[1] = rng.choice(texts)            # the same text again (caches keyed by the input show up here)
             ops.append(op)
         probe = gen_op(rng, cid)
-        while probe[0] == 'other':
+        while probe[0] in NOTEXT:
             probe = gen_op(rng, cid)
-        prev = [o for o in ops if o[0] != 'other']
-        if prev and rng.random() < 0.3:
-            probe[1] = rng.choice(prev)[1]
+        texts = [o[1] for o in ops if o[0] not in NOTEXT]
+        if texts and rng.random() < 0.3:
+            probe[1] = rng.choice(texts)
         allops = ops + [probe]
+        if 'lex' in CONFIGS[cid][5] and probe[0] != 'lex':
+            # every history ends with a plain, complete lex() (of an earlier text when there is one)
+            allops.append(['lex', rng.choice(texts) if texts and rng.random() < 0.6
+                           else (gen_text_ind(rng) if CONFIGS[cid][2] else gen_text_flat(rng)), None])
         with_frames = hi < 2 * len(cids) or rng.random() < (0.25 if ctx.thorough() else 0.06)
         nframes += with_frames
         inst, steps, problem = run_history(cid, allops, with_frames)
@@ -749,22 +935,7 @@ def history_stream(ctx):
         for kd in kinds:
             ctx.count('history-operations', key=None, nontrivial=False, operation=kd)
         if problem:
-            stage, i, msg, got, exp = problem
-            w = {'kind': 'history', 'config': cid, 'operations': allops[:i + 1], 'result_after_history': got,
-                 'result_on_fresh_instance': exp, 'what': stage}
-            if stage == 'oracle':
-                ctx.violation('history-oracle', w, True, '%s: operation %d %r: %s' % (cid, i, allops[i][:2], msg))
-            else:
-                # the invariant / frame condition is broken: look for a call whose result shows it
-                found = search_failing_probe(ctx, cid, allops[:i + 1])
-                if found:
-                    ctx.violation('history-%s+oracle' % stage, found, True, '%s; and a following call answers differently '
-                                  'from a fresh instance' % msg)
-                else:
-                    ctx.nsoft = getattr(ctx, 'nsoft', 0) + 1
-                    if ctx.nsoft <= 3:
-                        ctx.violation('correspondence:%s' % stage, dict(w, no_longer_checks='instance state model: ' + msg), False,
-                                      '%s: after operation %d %r: %s' % (cid, i, allops[i][:2], msg))
+            report_history_problem(ctx, cid, allops, problem)
             continue
         if CONFIGS[cid][4]:
             try:
@@ -797,8 +968,9 @@ def search_failing_probe(ctx, cid, ops, tries=60):
     rng = random.Random(ctx.seed * 7919 + len(ops))
     again = []
     for o in ops:                      # first the calls of the history themselves, complete and with the same text
-        if o[0] != 'other':
-            for cand in ([o[0], o[1], None], ['parse', o[1], None], ['lex', o[1], None]):
+        if o[0] not in ('other', 'getterm', 'save'):
+            for cand in ([o[0], o[1], o[2] if o[0] in ('pstart', 'onerr') else None], ['parse', o[1], None],
+                         ['lex', o[1], None], ['save', '', None]):
                 if cand[0] in CONFIGS[cid][5] and cand not in again:
                     again.append(cand)
     for t in range(tries + len(again)):
@@ -1051,12 +1223,17 @@ TH_CONFIGS = {
 }
 
 
+# the unscheduled stress run also covers the engines whose shared state is not in the lexer
+STRESS_CONFIGS = dict(TH_CONFIGS, earley_basic=('flat_earley_basic', 'parse'), earley_dyn=('flat_earley_dyn', 'parse'),
+                      cyk=('flat_cyk', 'parse'), multi=('flat_multi', 'parse_item'))
+
+
 def thread_job(inst, how, text):
     def job():
         if how == 'lex':
             return [ctok(t) for t in inst.lex(text)]
         try:
-            return ['tree', ctree(inst.parse(text))]
+            return ['tree', ctree(inst.parse(text, start='item') if how == 'parse_item' else inst.parse(text))]
         except Exception as e:  # noqa
             if type(e).__name__ in ('UnexpectedToken', 'UnexpectedCharacters', 'UnexpectedEOF', 'DedentError'):
                 return ['err', cerr(e)]
@@ -1070,7 +1247,7 @@ _SEQ = {}
 def sequential(thid, text):
     """the oracle for a thread: the same call alone on a fresh instance"""
     if (thid, text) not in _SEQ:
-        cid, how = TH_CONFIGS[thid]
+        cid, how = STRESS_CONFIGS[thid]
         try:
             _SEQ[(thid, text)] = ['ok', thread_job(make_instance(cid), how, text)()]
         except BaseException as e:  # noqa
@@ -1284,52 +1461,66 @@ def check_schedule_result(ctx, thid, texts, sched, results, seq, inst):
     return True
 
 
-def stress_stream(ctx):
-    """unscheduled threads with a tiny switch interval: smoke test"""
-    rng = ctx.rng
+def stress_round(thid, texts):
+    """8 unscheduled threads, 6 calls each, on one fresh instance; returns None or (what, text, result, sequential result)"""
+    cid, how = STRESS_CONFIGS[thid]
+    seq = [sequential(thid, tx) for tx in texts]
+    inst = make_instance(cid)
+    out = [None] * 8
+    barrier = threading.Barrier(8)
+
+    def work(i):
+        barrier.wait()
+        res = []
+        for j in range(6):
+            tx = texts[(i + j) % len(texts)]
+            try:
+                res.append(((i + j) % len(texts), ['ok', thread_job(inst, how, tx)()]))
+            except BaseException as e:  # noqa
+                res.append(((i + j) % len(texts), ['exc', type(e).__name__, str(e)[:100]]))
+        out[i] = res
     old = sys.getswitchinterval()
     sys.setswitchinterval(1e-6)
     try:
-        for r in range(ctx.scale(8, 60)):
-            thid = rng.choice(sorted(TH_CONFIGS))
-            cid, how = TH_CONFIGS[thid]
-            texts = [gen_text_flat(rng) for _ in range(4)]
-            seq = [sequential(thid, tx) for tx in texts]
-            inst = make_instance(cid)
-            out = [None] * 8
-            barrier = threading.Barrier(8)
-
-            def work(i):
-                barrier.wait()
-                res = []
-                for j in range(6):
-                    tx = texts[(i + j) % 4]
-                    try:
-                        res.append(((i + j) % 4, ['ok', thread_job(inst, how, tx)()]))
-                    except BaseException as e:  # noqa
-                        res.append(((i + j) % 4, ['exc', type(e).__name__, str(e)[:100]]))
-                out[i] = res
-            ths = [threading.Thread(target=work, args=(i,)) for i in range(8)]
-            for th in ths:
-                th.daemon = True
-                th.start()
-            for th in ths:
-                th.join(RUN_TIMEOUT)
-            ctx.count('stress', key=(thid, tuple(texts)), nontrivial=True)
-            if any(th.is_alive() for th in ths):
-                ctx.violation('stress-oracle', {'kind': 'stress', 'thread_config': thid, 'texts': texts, 'result': 'hang'}, True,
-                              '%s: concurrent calls did not return within %d s' % (thid, RUN_TIMEOUT))
-                return
-            for i, res in enumerate(out):
-                for k, rr in res or []:
-                    if rr != seq[k]:
-                        ctx.violation('stress-oracle', {'kind': 'stress', 'thread_config': thid, 'texts': texts, 'text': texts[k],
-                                                        'result': rr, 'sequential_result': seq[k]}, True,
-                                      '%s: a call running concurrently with others returned %s, sequentially %s'
-                                      % (thid, str(rr)[:100], str(seq[k])[:100]))
-                        return
+        ths = [threading.Thread(target=work, args=(i,), daemon=True) for i in range(8)]
+        for th in ths:
+            th.start()
+        for th in ths:
+            th.join(RUN_TIMEOUT)
     finally:
         sys.setswitchinterval(old)
+    if any(th.is_alive() for th in ths):
+        return ('hang', None, 'hang', None)
+    for res in out:
+        for k, rr in res or []:
+            if rr != seq[k]:
+                return ('differs', texts[k], rr, seq[k])
+    return None
+
+
+def stress_stream(ctx):
+    """unscheduled threads with a tiny switch interval: smoke test"""
+    rng = ctx.rng
+    names = sorted(STRESS_CONFIGS)
+    for r in range(ctx.scale(2 * len(names), 60)):
+        thid = names[r % len(names)]
+        cid, how = STRESS_CONFIGS[thid]
+        # long and mostly well-formed texts, so that the calls overlap in every phase (lexing, parsing, tree building)
+        texts = [' '.join(rng.choice(['a', 'if', 'xyz', '12', '( a 1 )', '( ( b ) if )'])
+                          for _ in range(rng.randint(8, 30))) + rng.choice(['', '', '', ' )', ' ?'])
+                 for _ in range(4)]
+        if how == 'parse_item':
+            texts = ['( ' + t + ' )' for t in texts]
+        bad = stress_round(thid, texts)
+        ctx.count('stress', key=(thid, tuple(texts)), nontrivial=True, stress_config=thid)
+        if bad:
+            what, tx, rr, sq = bad
+            ctx.violation('stress-oracle', {'kind': 'stress', 'thread_config': thid, 'texts': texts, 'text': tx,
+                                            'result': rr, 'sequential_result': sq}, True,
+                          '%s: a call running concurrently with others %s' % (thid, 'did not return within %d s' % RUN_TIMEOUT
+                                                                              if what == 'hang' else
+                                                                              'returned %s, sequentially %s' % (str(rr)[:100], str(sq)[:100])))
+            return
 
 
 # =====================================================================================================
@@ -1375,18 +1566,11 @@ def replay(ctx, case):
         print('sequential:', json.dumps(seq)[:400])
         return json.loads(json.dumps(results)) != json.loads(json.dumps(seq))
     if kind == 'stress':
-        for _ in range(20):
-            class C:  # minimal ctx
-                pass
-            import random
-            c = C()
-            c.rng = random.Random(_)
-            c.scale = lambda a, b: a
-            c.vs = []
-            c.count = lambda *a, **k: None
-            c.violation = lambda *a, **k: c.vs.append(a)
-            stress_stream(c)
-            if c.vs:
+        for _ in range(25):             # unscheduled threads: the same round, repeated
+            bad = stress_round(w['thread_config'], w['texts'])
+            if bad:
+                print('concurrent:', json.dumps(bad[2])[:300])
+                print('sequential:', json.dumps(bad[3])[:300])
                 return True
         return False
     return False
